@@ -392,11 +392,12 @@ impl PublishBuilder {
         if tx.is_canceled() {
             Err(SendPacketError::StreamingCancelled)
         } else {
+            // the stream may start only if the publish header has been written
             let rx =
-                self.shared.wait_publish_response(idx, AckType::Publish, self.packet, None);
+                self.shared.wait_publish_response(idx, AckType::Publish, self.packet, None)?;
             let _ = tx.send(());
 
-            rx?.await.map(|_| ()).map_err(|_| SendPacketError::Disconnected)
+            rx.await.map(|_| ()).map_err(|_| SendPacketError::Disconnected)
         }
     }
 }
